@@ -443,7 +443,7 @@ func vC20AddrPort(a *net.UDPAddr) netip.AddrPort {
 	return netip.AddrPortFrom(netip.AddrFrom16([16]byte(a.IP.To16())), uint16(a.Port))
 }
 
-var vC20Lens = []int{1, 19, 20, 21, 32, 33, 34, 57, 58, 100, 300, 700, 1056, 1057, 1058, 1200, 1252, 1350}
+var vC20Lens = []int{1, 19, 20, 21, 32, 33, 34, 57, 58, 100, 300, 700, 1056, 1057, 1058, 1200, 1252, 1350, 1400, 1401, 1452, 1472, 1500, 2048, 8192}
 
 // non-punch, non-STUN kinds
 var vC20PlainKinds = []string{"quic-long", "quic-short", "random", "random-window"}
@@ -455,18 +455,30 @@ var vC20StunKinds = []string{
 	"stun-other-method", "stun-truncated", "stun-trailing", "stun-cookie-only", "stun-reserved-bits", "stun-bitflip",
 }
 
-func vC20GenLen(t *rapid.T) int {
-	if rapid.Bool().Draw(t, "lenCorner") {
-		return rapid.SampledFrom(vC20Lens).Draw(t, "len")
+// vC20GenLen: datagram length 1..maxLen (maxLen = size of the read buffer, at
+// most 9000), biased to the corners of the punch window and to MTU-ish sizes.
+func vC20GenLen(t *rapid.T, maxLen int) int {
+	if maxLen > 9000 {
+		maxLen = 9000
 	}
-	return rapid.IntRange(1, 1400).Draw(t, "len")
+	switch rapid.IntRange(0, 7).Draw(t, "lenMode") {
+	case 0, 1, 2, 3:
+		if n := rapid.SampledFrom(vC20Lens).Draw(t, "len"); n <= maxLen {
+			return n
+		}
+		return maxLen
+	case 4:
+		return rapid.IntRange(1, maxLen).Draw(t, "len")
+	default:
+		return rapid.IntRange(1, min(maxLen, 1500)).Draw(t, "len")
+	}
 }
 
-func vC20GenPlain(t *rapid.T, kind string) []byte {
+func vC20GenPlain(t *rapid.T, kind string, maxLen int) []byte {
 	seed := rapid.Uint64().Draw(t, "seed")
 	switch kind {
 	case "quic-long":
-		n := vC20GenLen(t)
+		n := vC20GenLen(t, maxLen)
 		if n < 7 {
 			n = 7
 		}
@@ -477,14 +489,14 @@ func vC20GenPlain(t *rapid.T, kind string) []byte {
 		b[5] = byte(rapid.IntRange(0, 20).Draw(t, "dcidLen"))
 		return b
 	case "quic-short":
-		n := vC20GenLen(t)
+		n := vC20GenLen(t, maxLen)
 		b := vC20Fill(seed, n)
 		b[0] = 0x40 | b[0]&0x3F
 		return b
 	case "random-window":
 		return vC20Fill(seed, rapid.IntRange(vC20MinWire, vC20MaxWire).Draw(t, "len"))
 	default:
-		return vC20Fill(seed, vC20GenLen(t))
+		return vC20Fill(seed, vC20GenLen(t, maxLen))
 	}
 }
 
@@ -690,7 +702,11 @@ func vC20BuildPunch(s vC20PunchSpec, m vC20Meta, seed uint64) ([]byte, string, e
 		}
 	case s.damage == "extend":
 		// make the datagram longer than the largest punch packet
-		need := vC20MaxWire + 1 + s.arg%64 - len(b)
+		extra := 0 // half of the cases: exactly one byte too long
+		if s.arg&0x40 != 0 {
+			extra = s.arg % 64
+		}
+		need := vC20MaxWire + 1 + extra - len(b)
 		b = append(b, vC20Fill(seed^0x55, need)...)
 		label = "extended-beyond-max"
 	}
@@ -873,7 +889,7 @@ func vC20JudgeReturned(exps []vC20Exp, rets []vC20Ret) (map[int]bool, error) {
 			return nil, fmt.Errorf("returned packet %d has source address %v (%T), not the injected *net.UDPAddr; bytes=%s", k, r.addr, r.addr, vC20Hex(r.b))
 		}
 		i, ok := byPort[ua.Port]
-		if !ok || !ua.IP.Equal(exps[i].pkt.from.IP) || ua.Zone != exps[i].pkt.from.Zone || len(ua.IP) != len(exps[i].pkt.from.IP) {
+		if !ok || !ua.IP.Equal(exps[i].pkt.from.IP) || ua.Zone != exps[i].pkt.from.Zone {
 			who := "no injected packet"
 			for _, e := range exps {
 				if bytes.Equal(e.pkt.b, r.b) {
@@ -1055,6 +1071,12 @@ func vC20GenMetas(t *rapid.T) []vC20Meta {
 	var m4 vC20Meta
 	copy(m4.nonce[:], vC20Fill(rapid.Uint64().Draw(t, "nonceSeed2"), 16))
 	copy(m4.key[:], vC20Fill(rapid.Uint64().Draw(t, "keySeed2"), 32))
+	if m4.nonce == m0.nonce {
+		m4.nonce[0] ^= 0x80 // equal seeds (rapid shrinks towards them): keep M4 a different attempt
+	}
+	if m4.key == m0.key {
+		m4.key[0] ^= 0x80
+	}
 	return []vC20Meta{m0, m1, m2, m3, m4}
 }
 
